@@ -84,6 +84,7 @@ func RegisterSites(s []Site) int32 {
 }
 
 type shadowVar struct {
+	hb   hbObj
 	wT   int   // last writer thread
 	wC   int32 // its clock at the write
 	rVC  VC    // reads since
@@ -108,7 +109,8 @@ func RacyFields() []string {
 
 func (x *Exec) access(p unsafe.Pointer, site int32, write bool) {
 	st := &sites[site]
-	if racy[st.Field] {
+	isRacy := racy[st.Field]
+	if isRacy {
 		d := "read "
 		if write {
 			d = "write "
@@ -120,6 +122,13 @@ func (x *Exec) access(p unsafe.Pointer, site int32, write bool) {
 	if sv == nil {
 		sv = &shadowVar{wT: -1}
 		x.shadow[p] = sv
+	}
+	if isRacy {
+		k := uint64(0)
+		if write {
+			k = 1
+		}
+		x.hbEvent(&sv.hb, kField, k)
 	}
 	// conflict with the last write?
 	if sv.wT >= 0 && sv.wT != t.id && sv.wC > t.vc.get(sv.wT) {
